@@ -181,7 +181,7 @@ func (s *grpcServer) FetchBlob(ctx context.Context, req *asset.FetchBlobRequest)
 			}, nil
 		}
 
-		if translateGRPCErrCodeFromClient(err) == codes.ResourceExhausted {
+		if gRPCErrCode(err, codes.Unknown) == codes.ResourceExhausted {
 			return &resourceExhaustedResponse, nil
 		}
 
